@@ -96,6 +96,9 @@ func vh_C14_L1_close_after_data_and_reuse() {
 	s2, oerr := a.OpenStream(1, PayloadTypeWebRTCBinary)
 	vassert(oerr == nil && s2 != s, "the identifier can be opened again")
 	vassert(s2.sequenceNumber == 0 && s2.nextOrderedMID == 0, "the new incarnation starts with fresh sequence numbers")
+	if vPick(2) == 1 {
+		s2.SetReliabilityParams(true, ReliabilityTypeReliable, 0) // the new incarnation may be used unordered from the start
+	}
 	again := nondetBytes(1)
 	_, werr = s2.WriteSCTP(again, PayloadTypeWebRTCString)
 	vassert(werr == nil, "write on the new incarnation")
@@ -223,3 +226,43 @@ func vh_C14_L2_deferred_reset_reevaluated() {
 // C14.L4: end-of-file signalled by a stream reset is final for readers: a read deadline
 // passing later does not replace it (same obligation as C18.L4).
 func vh_C14_L4_eof_is_final() { vh_C18_L4_read_deadline() }
+
+// C14.L5: an "in progress" answer is not a final answer. A sender with an outstanding reset
+// request receives a response saying "in progress": the request stays pending and the
+// reconfig timer keeps running, so the request is repeated until the peer has performed it.
+func vh_C14_L5_in_progress_keeps_request() {
+	a, _ := vNewAssoc()
+	s, err := a.OpenStream(1, PayloadTypeWebRTCBinary)
+	vassert(err == nil, "open stream")
+	vassert(s.Close() == nil, "close")
+	a.cwnd, a.rwnd = 1<<20, 1<<20
+	_ = vWriterWake(a)
+	vassert(len(a.reconfigs) == 1 && a.tReconfig.isRunning(), "the reset request is outstanding and timed")
+	var rsn uint32
+	for k := range a.reconfigs {
+		rsn = k
+	}
+	resp := &paramReconfigResponse{reconfigResponseSequenceNumber: rsn, result: reconfigResultInProgress}
+	vassert(vDeliver(a, &chunkReconfig{paramA: resp}) == nil, "RECONFIG is never fatal")
+	vassert(len(a.reconfigs) == 1, "an in-progress answer leaves the request pending")
+	vassert(a.tReconfig.isRunning(), "and the reconfig timer running")
+	vassert(vFireRtx(a, a.tReconfig), "the timer expires")
+	again := false
+	for _, raw := range vWriterWake(a) {
+		if p := vDecode(raw); p != nil {
+			for _, c := range p.chunks {
+				if rc, ok := c.(*chunkReconfig); ok {
+					if rq, ok := rc.paramA.(*paramOutgoingResetRequest); ok && rq.reconfigRequestSequenceNumber == rsn {
+						again = true
+					}
+				}
+			}
+		}
+	}
+	vassert(again, "the request is sent again")
+	// the final answer ends it
+	done := &paramReconfigResponse{reconfigResponseSequenceNumber: rsn, result: reconfigResultSuccessPerformed}
+	vassert(vDeliver(a, &chunkReconfig{paramA: done}) == nil, "RECONFIG is never fatal")
+	vassert(len(a.reconfigs) == 0 && !a.tReconfig.isRunning(), "a final answer ends the request")
+	vcover("end")
+}
